@@ -251,3 +251,36 @@ func init() {
 		},
 	})
 }
+
+func init() {
+	nPatterns := 20
+	register(&checkDef{
+		ID: "C05", Pkg: "runh", Level: "other", NativeCheck: true, UseStubs: true, OnlyPrefix: "C05/",
+		Explanation: "Bounded exhaustive symbolic execution of the real file.New + SpokFile.Run (expandGlobs, expandGlob with its callback) and of the third-party doublestar.GlobWalk from its real SSA over os.DirFS of the in-memory file system: the tree is every subset of a pool of candidate paths (top-level and nested files, entries whose first byte is '.' or a letter by a symbolic choice, names sorting before and after each other), the pattern is one of a fixed list. " +
+			"The expansion, as a set, must equal {p in tree (files and directories) : doublestar.Match(pattern, p) and p does not begin with '.'}, and a second expansion of the unchanged tree must give the same list. All variables are booleans/choices: complete enumeration inside the bound.",
+		Bounds: func(tier string) string {
+			if tier == "thorough" {
+				return fmt.Sprintf("all subsets of a pool of %d candidate paths (3 of them hidden-or-not) x %d patterns", 9, nPatterns)
+			}
+			return "all subsets of the first 7 candidate paths (2 of them hidden-or-not) x 8 patterns"
+		},
+		Outside:      []string{"other trees and patterns; symbolic links; patterns without '*' are not globs for spok", "doublestar.Match is the reference for 'the relative path matches the pattern' (the library's contract, not spok's)"},
+		Assumptions:  runAssumptions,
+		EndSignature: map[string]string{"crash": "C05/panic", "budget": "C05/non-termination", "deadlock": "C05/deadlock"},
+		Jobs: func(tier string, seed int64) []jobSpec {
+			pool, pats := 7, []int{0, 1, 2, 3, 4, 5, 8, 10}
+			if tier == "thorough" {
+				pool = 9
+				pats = nil
+				for k := 0; k < nPatterns; k++ {
+					pats = append(pats, k)
+				}
+			}
+			var out []jobSpec
+			for _, k := range pats {
+				out = append(out, jobSpec{Name: fmt.Sprintf("Glob[pattern=%d pool=%d]", k, pool), Func: "Glob", Params: map[string]string{"pattern": strconv.Itoa(k), "pool": strconv.Itoa(pool)}, Opts: interp.Options{Budget: 10_000_000}})
+			}
+			return out
+		},
+	})
+}
